@@ -46,7 +46,12 @@ def oracle(script, obs):
             continue
         ho = obs[h["head_idx"]]
         if not ho.startswith("ok "):
-            # a request that analysis refuses (e.g. caller-added duplicate) is not this property's subject
+            added_names = [bytes.fromhex(k).lower() for k, v in h["added"]]
+            if ho.startswith("err MethodForbidsBody") and b"content-length" not in added_names and b"transfer-encoding" not in added_names:
+                fails.append("hop %d: head of the redirected %s request refused with MethodForbidsBody: the previous request's Content-Length is "
+                             "still effective" % (h["hop"], h["method"]))
+                return fails
+            # any other request that analysis refuses (e.g. caller-added duplicate) is not this property's subject
             continue
         rl, hs = R.parse_head(parse_head_write(ho)[1])
         for k, v in hs:
